@@ -283,6 +283,60 @@ def fresh_instances(out, rnd, n):
                 sys.stderr.write("fresh-higher-order skipped %s: %r\n" % (name, e))
 
 
+def theorem_histories(out):
+    """one theorem NAME whose statement changes during the process (a lemma edited and re-added, as the editor does): after each
+    installation the macros that look theorems up by name are invoked on instances of the CURRENT statement"""
+    import copy as _copy
+    from kernel.term import SVar, Forall, Exists, Lambda
+    from kernel.type import TVar, TFun
+    a_ = TVar("a")
+    # theorems are stored with ordinary variables; get_theorem hands out the schematic form
+    sA, sB = Var("A", BoolType), Var("B", BoolType)
+    sP, sa = Var("P", TFun(a_, BoolType)), Var("a", a_)
+    xv = Var("x", a_)
+    p, q, c = Var("p", BoolType), Var("q", BoolType), Var("c", a_)
+    Rv = Var("R", TFun(a_, a_, BoolType))
+    lamR = Lambda(xv, Rv(xv, c))
+    stmts = [
+        ("fo", Implies(And(sA, sB), sA), {"A": p, "B": q}),
+        ("ho-exists", Implies(sP(sa), Exists(xv, sP(xv))), {"P": lamR, "a": c}),
+        ("ho-forall", Implies(Forall(xv, sP(xv)), sP(sa)), {"P": lamR, "a": c}),
+        ("fo", Implies(And(sA, sB), sA), {"A": q, "B": p}),
+        ("fo-eq", Eq(And(sA, sB), And(sB, sA)), {"A": p, "B": q}),
+        ("ho-exists", Implies(sP(sa), Exists(xv, sP(xv))), {"P": Lambda(xv, Eq(xv, c)), "a": c}),
+    ]
+    saved = theory.thy
+    theory.thy = _copy.copy(saved)
+    try:
+        for step, (kind, prop, iv) in enumerate(stmts):
+            theory.thy.add_theorem("verif_lemma", Thm(prop))
+            inst = Inst()
+            for k, v in iv.items():
+                inst[k] = v
+            try:
+                As, C = theory.get_theorem("verif_lemma").prop.subst_norm(inst).strip_implies()
+            except Exception as e:
+                sys.stderr.write("thm-history: no instance %r\n" % (e,))
+                continue
+            tag = "thm-history/%d-%s" % (step, kind)
+            for prems, how in (([], "no-premises"), ([Thm(A) for A in As], "premises")):
+                for args, mname in (((("verif_lemma", inst)), "apply_theorem_for"), ("verif_lemma", "apply_theorem")):
+                    try:
+                        run_invocation(out, mname, args, prems, "%s/%s" % (tag, how), again="#h%d" % step)
+                    except Exception as e:
+                        sys.stderr.write("thm-history skipped %s: %r\n" % (mname, e))
+            if prop.is_equals() or (not As and C.is_equals()):
+                goal = And(q, p) if kind == "fo-eq" else None
+                if goal is not None:
+                    for mname in ("rewrite_goal", "rewrite_goal_sym"):
+                        try:
+                            run_invocation(out, mname, ("verif_lemma", goal), [Thm(And(p, q))], tag + "/rewrite", again="#h%d" % step)
+                        except Exception as e:
+                            sys.stderr.write("thm-history skipped %s: %r\n" % (mname, e))
+    finally:
+        theory.thy = saved
+
+
 def harvest(out_path, seed, n_per, theories):
     rnd = random.Random(seed)
     out = Out(out_path)
@@ -312,6 +366,7 @@ def harvest(out_path, seed, n_per, theories):
             pass
     basic.load_theory("logic")
     fresh_instances(out, rnd, 40)
+    theorem_histories(out)
     out.f.close()
     print("macro events", out.tid)
 
